@@ -11,6 +11,8 @@ def run(prog, world, sem, rep):
     rep.rule("C14.a", "ClaimRewards: the amount subtracted from State.prev_reward_balance is the amount sent, which is the whole-unit part of "
              "(accrued + pending) of the caller's holder record; pending_rewards keeps exactly the fractional remainder; Holder.index := "
              "State.global_index; every write and the transfer happen only after the amount was observed non-zero; coin denom = Config.reward_denom", 7)
+    rep.rule("C14.c", "ClaimRewards refuses only when nothing is payable: every explicit error exit of the claim handler is reachable only through "
+             "the edge on which the payable amount was observed zero (settled pending rewards are always claimable)", 1)
     rep.rule("C14.b", "UpdateGlobalIndex: new rewards = checked_sub(own balance of Config.reward_denom, State.prev_reward_balance); "
              "prev_reward_balance := that balance; global_index += from_ratio(new rewards, State.total_balance); nothing is written when "
              "total_balance is zero", 4)
@@ -70,6 +72,30 @@ def run(prog, world, sem, rep):
                 if not g:
                     bad.append("%s %s: %s" % (kind, cell, d))
         rep.ob("C14.a", "no write before the zero-amount test", n > 0 and not bad, "; ".join(bad) if bad else "%d writes all behind amount != 0" % n, where(ex))
+
+    # ---------------------------------------------------------------- C14.c
+    from .common import arm_handler
+    hclaim = arm_handler(sem, vs)
+    if paid is not None:
+        raw_paid2 = world.ident(prev["what"][2])
+
+        def fzero(f, resolve):
+            if f[0] == "truth" and f[2] is True and f[1].op == "call" and f[1].info.endswith("::is_zero"):
+                return world.ident(resolve(f[1].args[0])) == raw_paid2 or world.norm(resolve(f[1].args[0])) == paid
+            return False
+        be = hclaim.be
+        pe = set()
+        for blk in hclaim.body.blocks:
+            if blk.term.kind == "switch" and blk.idx in be.cfg.live:
+                for succ, fl in sem.edge_facts(be, blk.idx).items():
+                    if any(fzero(f, hclaim.resolve) for f in fl):
+                        pe.add((blk.idx, succ))
+        r = be.cfg.reach([0], removed=pe)
+        errs = [(bb, x) for (bb, idx, kind, x) in sem.ret_sites(be) if kind == "err" and x.op == "adt" and bb in hclaim.blocks]
+        bad = [hclaim.body.blocks[bb].term.line for (bb, x) in errs if bb in r]
+        rep.ob("C14.c", "claim is refused only for a zero payable amount", bool(errs) and not bad,
+               "explicit error exit(s) at line(s) %s reachable although the payable amount (accrued + pending, whole units) was not observed zero" % bad if bad or not errs
+               else "%d explicit refusal(s), all behind payable == 0" % len(errs), where(hclaim.body))
 
     # ---------------------------------------------------------------- C14.b
     vs = explore(sem, ex, variant_env(prog, ex, "UpdateGlobalIndex"))
